@@ -184,6 +184,8 @@ func c15SameLines(a, b string) bool {
 }
 
 var c15MacroScripts = [][]string{
+	{"rest_of = func(a, ..) {..}", "println(rest_of(1, 2))", "inc = macro(x) {quote(unquote(x) + 1)}", "println(rest_of(3, 4), inc(41))"},
+	{"func vz(..) {len(..)}", "println(vz(1, 2, 3))", "inc = macro(x) {quote(unquote(x) + 1)}", "println(vz(1, 2), inc(vz()))"},
 	{"mp = macro(x) {println(\"expanding\"); quote(unquote(x))}", "println(\"a\")", "println(mp(1))", "println(\"b\", mp(2))"},
 	{"m1 = macro(x) {quote(unquote(x) + 1)}", "a = m1(2)", "println(a, m1(a))", "func f(y) {m1(y) * 2}", "println(f(3))"},
 	{"unless = macro(c, t, e) {quote(if !(unquote(c)) {unquote(t)} else {unquote(e)})}", "v = unless(1 > 2, \"yes\", \"no\")", "println(v)", "w = unless(true, println(\"not printed\"), 7)"},
